@@ -11,6 +11,30 @@ CHECKS = {
             "Seeded search over back-pressure / registration / stream-end schedules of the production pub/sub router (real Topic::poll, FanoutMany, StreamMap, mpsc channel) against a one-vector reference model of the accept order; every subscriber's hand-over sequence must be one contiguous, duplicate-free run of it and be fully flushed at quiescence. Sampling, not proof.",
             "Trusts the mock sink as a model of FramedWrite<SendStream>; bounds: <=3 publishers, <=4 subscribers, <=40 messages per run.",
             "DESIGN.md §5 C01"),
+    "C02": ("exploration", "R", "deterministic simulation: seeded schedules of the real request/reply router against scripted requestors and a scripted replier, routing reference model",
+            "Seeded search over request/reply/bind/back-pressure schedules of the production request/reply router (real Topic::poll, Router, StreamMap) with forged and ill-formed routing tags; every request reaches the replier at most once, in order, tagged unforgeably; every well-tagged reply reaches exactly its requestor once, intact; ill-tagged replies reach nobody. Sampling, not proof.",
+            "Trusts the mock sink/stream model; bounds: <=4 requestors, 1 replier (re-binding is C10), <=30 requests per run.",
+            "DESIGN.md §5 C02"),
+    "C08": ("fault_enumeration", "R", "deterministic simulation with fault injection: complete list of peer-failure placements, each under seeded schedules",
+            "Every point of a listed space of fault placements (failing peer position x sink operation x message index; failing/ending stream x index; bound replier sink failing, then a fresh replier) is executed against the real routers under seeded ready/pending schedules of the healthy peers, plus random one- and two-peer failures; healthy peers must satisfy the C01/C02 models, the router must not panic, a failed replier must be replaceable.",
+            "A failure is a sink operation returning Err from a scripted point on, or a stream yielding Err/ending; bounds as stated in the evidence (exhaustive_space).",
+            "DESIGN.md §5 C08"),
+    "C09": ("exploration", "R", "deterministic simulation: wake-driven executor and per-poll work budget over seeded router schedules",
+            "The real routers are polled only when their waker fired; every input event wakes exactly the waker the router registered for it. At quiescence everything accepted must be delivered and flushed and every queued registration adopted (a lost wake-up fails this); a mock polled >10000 times inside one poll, or work beyond a product bound, is a spin. Partial topologies (no peers, one side only) included.",
+            "Trusts the mocks to wake exactly on scripted state changes; single router per run.",
+            "DESIGN.md §5 C09"),
+    "C10": ("exploration", "R", "deterministic simulation: seeded replier bind/reject/rebind histories against the real request/reply router",
+            "Histories of 1-5 replier registrations and departures interleaved with traffic and back-pressure (also on rejected repliers' sinks): requests never alternate between repliers, a rejected replier gets exactly one REPLIER_ALREADY_BOUND frame, flushed, then close, and never a request; a replier registering with no live rival is bound and served.",
+            "A departed/failed replier counts as gone once the router has had a parked poll since; N-engine smoke for the client side is not built yet.",
+            "DESIGN.md §5 C10"),
+    "C11": ("exploration", "R", "deterministic simulation: seeded hostile frame sequences fed to the real request/reply router",
+            "Requestors and repliers additionally send every other frame kind mid-stream (Ok, BatchMessage, Error, Register*, frame-limit requests); the router must not panic or spin and every non-hostile peer's traffic must still satisfy the C02 model. The stream-open half of the property (Ok/Error answer, role mismatch) needs the N-engine and is not covered yet.",
+            "R part only: frames arrive decoded; first-frame handling in server.rs is not exercised by this check yet.",
+            "DESIGN.md §5 C11"),
+    "C16": ("exploration", "R", "deterministic simulation: registration channel closed at a seeded step of pub/sub and request/reply router schedules",
+            "The sender returned by Topic::pair() is closed or dropped at an arbitrary step (idle, item buffered, flush pending, one side only, rejection in progress); once every sink accepts data the router future must complete within the poll budget and (pub/sub) every accepted item must be handed over and flushed first.",
+            "close_channel on the pair() sender is what Server::shutdown does; N-engine smoke of Server::verif_shutdown not built yet.",
+            "DESIGN.md §5 C16"),
 }
 
 PENDING_REASON = "no check built yet in this session; the design for it is in DESIGN.md §5 (not claimed until the check exists and passes on the unchanged tree)"
